@@ -129,18 +129,20 @@ theorem C09_asserted_ids_are_fresh (m : State) (c : Term) (front : Bool) (pi : P
 /-- opening a call takes the whole clause list of the procedure, in order, at that moment -/
 theorem C09_call_opens_snapshot (m : State) (goal : Term) (pi : PI) (p : Proc)
     (hpi : piArg goal = .ok pi) (hg : m.procs.get pi = some p) :
-    openCall m goal = ({ m with iters := m.iters ++ [.call goal p.clauses] }, .opened m.iters.length) := by
+    openCall m goal = ({ m with iters := m.iters ++ [.call goal p.clauses []] }, .opened m.iters.length) := by
   simp [openCall, hpi, hg, pushIter]
 
 /-- **C09_call_sees_snapshot**: whatever happens after a call was opened — any history, in either
     variant, with any updates of the very predicate being enumerated, as long as the iterator
     itself is not closed — what the iterator still holds is a SUFFIX of the call-time clause list
-    `S`: nothing is ever added to it, removed from it or reordered; it only advances. -/
+    `S` (plus the answers still pending of the clause in hand): nothing is ever added to it,
+    removed from it or reordered; it only advances. -/
 theorem C09_call_sees_snapshot (v : Variant) (m : State) (h : Nat) (goal : Term) (S : List Stored)
-    (hopen : m.iters[h]? = some (.call goal S)) (ops : List Op) (hnc : Op.close h ∉ ops) :
-    ∃ k, (run v m ops).1.iters[h]? = some (.call goal (S.drop k)) := by
-  induction ops generalizing m S with
-  | nil => exact ⟨0, by simpa [run] using hopen⟩
+    (pend : List Term) (hopen : m.iters[h]? = some (.call goal S pend)) (ops : List Op)
+    (hnc : Op.close h ∉ ops) :
+    ∃ k pend', (run v m ops).1.iters[h]? = some (.call goal (S.drop k) pend') := by
+  induction ops generalizing m S pend with
+  | nil => exact ⟨0, pend, by simpa [run] using hopen⟩
   | cons o ops ih =>
     have hh : h < m.iters.length := by
       rcases Nat.lt_or_ge h m.iters.length with hlt | hge
@@ -151,16 +153,21 @@ theorem C09_call_sees_snapshot (v : Variant) (m : State) (h : Nat) (goal : Term)
     unfold run
     by_cases ho : o = .next h
     · subst ho
-      have hstep : ∃ k, (step v m (.next h)).1.iters[h]? = some (.call goal (S.drop k)) := by
-        simp only [step, next, hopen]
-        obtain ⟨k, hk⟩ := nextCall_iters m h goal S
-        exact ⟨k, by rw [hk, List.getElem?_set_self hh]⟩
-      obtain ⟨k, hk⟩ := hstep
-      obtain ⟨k', hk'⟩ := ih _ _ hk hnc'
-      exact ⟨k + k', by simpa [List.drop_drop, Nat.add_comm] using hk'⟩
+      have hstep : ∃ k pend', (step v m (.next h)).1.iters[h]? = some (.call goal (S.drop k) pend') := by
+        cases pend with
+        | cons a more =>
+          simp only [step, next, hopen]
+          exact ⟨0, more, by simp [List.getElem?_set_self hh]⟩
+        | nil =>
+          simp only [step, next, hopen]
+          obtain ⟨k, pend', hk⟩ := nextCall_iters m h goal S
+          exact ⟨k, pend', by rw [hk, List.getElem?_set_self hh]⟩
+      obtain ⟨k, pend', hk⟩ := hstep
+      obtain ⟨k', pend'', hk'⟩ := ih _ _ _ hk hnc'
+      exact ⟨k + k', pend'', by simpa [List.drop_drop, Nat.add_comm] using hk'⟩
     · have hf := step_frame v m h hh o ho ho2
       rw [hopen] at hf
-      exact ih _ _ hf hnc'
+      exact ih _ _ _ hf hnc'
 
 /-- the answer of backtracking into a call is a function of the goal, the snapshot and the
     variable counter alone: two states with arbitrarily different databases give the same answer
@@ -169,19 +176,95 @@ theorem C09_call_answer_independent_of_db (m m' : State) (h h' : Nat) (goal : Te
     (hv : m.nextVar = m'.nextVar) :
     (nextCall m h goal S).2 = (nextCall m' h' goal S).2 ∧
     (nextCall m h goal S).1.nextVar = (nextCall m' h' goal S).1.nextVar ∧
-    ∃ k, (nextCall m h goal S).1.iters = m.iters.set h (.call goal (S.drop k)) ∧
-         (nextCall m' h' goal S).1.iters = m'.iters.set h' (.call goal (S.drop k)) := by
+    ∃ k pend, (nextCall m h goal S).1.iters = m.iters.set h (.call goal (S.drop k) pend) ∧
+         (nextCall m' h' goal S).1.iters = m'.iters.set h' (.call goal (S.drop k) pend) := by
   induction S generalizing m m' with
-  | nil => exact ⟨rfl, hv, 0, rfl, rfl⟩
+  | nil => exact ⟨rfl, hv, 0, [], rfl, rfl⟩
   | cons c S ih =>
     unfold nextCall
     dsimp only
     rw [hv]
     split
-    · exact ⟨rfl, rfl, 1, rfl, rfl⟩
-    · obtain ⟨h1, h2, k, h3, h4⟩ := ih { m with nextVar := m'.nextVar + maxVar c.raw }
+    · exact ⟨rfl, rfl, 1, _, rfl, rfl⟩
+    · obtain ⟨h1, h2, k, pend, h3, h4⟩ := ih { m with nextVar := m'.nextVar + maxVar c.raw }
         { m' with nextVar := m'.nextVar + maxVar c.raw } rfl
-      exact ⟨h1, h2, k + 1, h3, h4⟩
+      exact ⟨h1, h2, k + 1, pend, h3, h4⟩
+
+/-! ### the answers of a call: clause by clause, in database order -/
+
+/-- all answers of a goal over a clause list: for each clause IN ORDER its answers (head
+    unification, then the solutions of its own alternative) -/
+def allAnswers (goal : Term) : Nat → List Stored → List Term
+  | _, [] => []
+  | nv, c :: cs => clauseAnswers nv goal c ++ allAnswers goal (nv + maxVar c.raw) cs
+
+/-- backtrack into iterator `h` until it is exhausted, collecting the answers -/
+def drainCall (v : Variant) : Nat → State → Nat → List Term
+  | 0, _, _ => []
+  | fuel + 1, st, h =>
+    match next v st h with
+    | (st', .answer a) => a :: drainCall v fuel st' h
+    | _ => []
+
+theorem nextCall_answers (m : State) (h : Nat) (hh : h < m.iters.length) (goal : Term) (S : List Stored) :
+    ((nextCall m h goal S).2 = .no ∧ allAnswers goal m.nextVar S = []) ∨
+    (∃ a more S', (nextCall m h goal S).2 = .answer a ∧
+      (nextCall m h goal S).1.iters[h]? = some (.call goal S' more) ∧
+      h < (nextCall m h goal S).1.iters.length ∧
+      allAnswers goal m.nextVar S = a :: more ++ allAnswers goal (nextCall m h goal S).1.nextVar S') := by
+  induction S generalizing m with
+  | nil => left; exact ⟨rfl, rfl⟩
+  | cons c S ih =>
+    unfold nextCall
+    dsimp only
+    cases hca : clauseAnswers m.nextVar goal c with
+    | cons a more =>
+      right
+      exact ⟨a, more, S, rfl, by simp [List.getElem?_set_self hh], by simpa using hh, by simp [allAnswers, hca]⟩
+    | nil =>
+      simp only
+      rcases ih { m with nextVar := m.nextVar + maxVar c.raw } hh with ⟨h1, h2⟩ | ⟨a, more, S', h1, h2, h3, h4⟩
+      · left; exact ⟨h1, by simp [allAnswers, hca, h2]⟩
+      · right; exact ⟨a, more, S', h1, h2, h3, by simp [allAnswers, hca, h4]⟩
+
+/-- **C09_call_answers_in_database_order**: enumerating an open call to exhaustion delivers, after
+    the answers still pending of the clause in hand, for each clause of its snapshot IN ORDER the
+    answers of that clause — nothing else, nothing twice (given fuel for one step per answer). -/
+theorem C09_call_answers_in_database_order (v : Variant) (fuel : Nat) (m : State) (h : Nat) (goal : Term)
+    (S : List Stored) (pend : List Term) (hopen : m.iters[h]? = some (.call goal S pend))
+    (hfuel : (pend ++ allAnswers goal m.nextVar S).length < fuel) :
+    drainCall v fuel m h = pend ++ allAnswers goal m.nextVar S := by
+  induction fuel generalizing m S pend with
+  | zero => cases hfuel
+  | succ fuel ih =>
+    have hh : h < m.iters.length := by
+      rcases Nat.lt_or_ge h m.iters.length with hlt | hge
+      · exact hlt
+      · rw [List.getElem?_eq_none hge] at hopen; cases hopen
+    unfold drainCall
+    cases pend with
+    | cons a more =>
+      simp only [next, hopen]
+      rw [ih _ S more (by simp [List.getElem?_set_self hh]) (by simp at hfuel ⊢; omega)]
+      rfl
+    | nil =>
+      simp only [next, hopen]
+      rcases nextCall_answers m h hh goal S with ⟨h1, h2⟩ | ⟨a, more, S', h1, h2, h3, h4⟩
+      · cases hr : nextCall m h goal S with
+        | mk m1 o =>
+          rw [hr] at h1
+          simp only at h1
+          subst h1
+          simp [h2]
+      · cases hr : nextCall m h goal S with
+        | mk m1 o =>
+          rw [hr] at h1 h2 h3 h4
+          simp only at h1 h2 h3 h4
+          subst h1
+          simp only [List.nil_append]
+          rw [h4] at hfuel ⊢
+          rw [ih m1 S' more h2 (by simp at hfuel ⊢; omega)]
+          rfl
 
 /-- a call never changes the database -/
 theorem C09_call_does_not_update (m : State) (h : Nat) (goal : Term) (S : List Stored) :
@@ -202,18 +285,58 @@ theorem C09_assert_position (m : State) (c : Term) (front : Bool) (pi : PI) (raw
                   else (LUV.clausesOf m.procs pi).map (·.raw) ++ raws) ∧
     (∀ pi', pi' ≠ pi → (assertMerge m c front).1.procs.get pi' = m.procs.get pi') ∧
     (assertMerge m c front).1.iters = m.iters := by
+  have hz : (raws.zip (altsOf c)).map (·.1) = raws := by
+    rw [List.map_fst_zip]
+    rw [(compile_zip hc).2]; exact Nat.le_refl _
   unfold assertMerge
   simp only [hpi, hc, LUV.clausesOf]
   rcases Option.eq_none_or_eq_some (m.procs.get pi) with hg | ⟨p, hg⟩
   · simp only [hg]
     refine ⟨by simp, ?_, ?_, by simp⟩
-    · cases front <;> simp [Procs.get_set, raws_stamp]
+    · cases front <;> simp [Procs.get_set, raws_stamp, hz]
     · intro pi' hne; simp [Procs.get_set, hne]
   · have hd := hdyn p hg
     simp only [hg, hd]
     refine ⟨by simp, ?_, ?_, by simp⟩
-    · cases front <;> simp [Procs.get_set, raws_stamp]
+    · cases front <;> simp [Procs.get_set, raws_stamp, hz]
     · intro pi' hne; simp [Procs.get_set, hne]
+
+/-- **C09_assert_block_order**: a clause term whose body has the top-level alternatives
+    `A1 ; … ; An` is stored as n clauses — the i-th keeps the whole term as its source and EXECUTES
+    `Ai` — and these n clauses go into the procedure as ONE BLOCK IN THE ORDER OF THE ALTERNATIVES:
+    in front of all older clauses for asserta/1, behind them for assertz/1.  (The listing by
+    clause/2 cannot show the order inside the block, every clause having the same source term;
+    the answers of a call do: `C09_call_answers_in_database_order`.) -/
+theorem C09_assert_block_order (m : State) (c : Term) (front : Bool) (pi : PI) (raws : List Term)
+    (hpi : clausePI c = .ok pi) (hc : compile c = .ok raws)
+    (hdyn : ∀ p, m.procs.get pi = some p → p.dynamic = true) :
+    ((assertMerge m c front).1.procs.get pi).map (fun p => p.clauses.map (fun d => (d.raw, d.body))) =
+      some (if front
+        then (altsOf c).map (fun a => (c, a)) ++ (LUV.clausesOf m.procs pi).map (fun d => (d.raw, d.body))
+        else (LUV.clausesOf m.procs pi).map (fun d => (d.raw, d.body)) ++ (altsOf c).map (fun a => (c, a))) := by
+  unfold assertMerge
+  simp only [hpi, hc, LUV.clausesOf, (compile_zip hc).1]
+  rcases Option.eq_none_or_eq_some (m.procs.get pi) with hg | ⟨p, hg⟩
+  · simp only [hg]
+    cases front <;> simp [Procs.get_set, pairs_stamp]
+  · have hd := hdyn p hg
+    simp only [hg, hd]
+    cases front <;> simp [Procs.get_set, pairs_stamp]
+
+/-- the outside tester's scenario: `asserta((r(X) :- (X = 1 ; X = 2 ; X = 3)))` on top of r(0), then
+    a call of r(X): the answers are 1, 2, 3, 0 -/
+example :
+    let rule := Term.a2 ":-" (Term.a1 "r" (.var 0))
+      (Term.a2 ";" (Term.a2 "=" (.var 0) (.int 1)) (Term.a2 ";" (Term.a2 "=" (.var 0) (.int 2)) (Term.a2 "=" (.var 0) (.int 3))))
+    let m := (run .fixed { State.empty with nextVar := 100 }
+      [.assertz (Term.a1 "r" (.int 0)), .asserta rule, .openCall (Term.a1 "r" (.var 5))]).1
+    drainCall .fixed 10 m 0 = [Term.a1 "r" (.int 1), Term.a1 "r" (.int 2), Term.a1 "r" (.int 3), Term.a1 "r" (.int 0)] := by
+  decide +kernel
+
+/-- the alternatives of `H :- (A ; B ; C)` are A, B, C — an if-then-else counts as one -/
+example : altsOf (Term.a2 ":-" (Term.a1 "r" (.var 0))
+    (Term.a2 ";" (Term.a2 "=" (.var 0) (.int 1)) (Term.a2 ";" (Term.a2 "=" (.var 0) (.int 2)) (Term.a2 "=" (.var 0) (.int 3))))) =
+    [Term.a2 "=" (.var 0) (.int 1), Term.a2 "=" (.var 0) (.int 2), Term.a2 "=" (.var 0) (.int 3)] := by decide +kernel
 
 /-- a fact (anything that is not a rule `H :- B`) is stored as exactly one clause -/
 theorem C09_compile_fact (t : Term) (h : ∀ hd b, t ≠ .app ":-" (.cons hd (.cons b .nil))) :
@@ -299,7 +422,8 @@ theorem C09_error_changes_nothing (v : Variant) (m : State) (o : Op) (e : Term)
     simp only [step] at h ⊢
     revert h
     fun_cases next v m hd with
-    | case1 g rest hit =>
+    | case1 g rest a more hit => intro h; simp at h
+    | case2 g rest hit =>
       intro h
       exfalso
       clear hit
@@ -311,14 +435,14 @@ theorem C09_error_changes_nothing (v : Variant) (m : State) (o : Op) (e : Term)
         split at h
         · simp at h
         · exact ih _ h
-    | case2 pat pi rest i d hit =>
+    | case3 pat pi rest i d hit =>
       intro h
       exfalso
       clear hit
       revert h
       fun_induction nextRetract v m hd pat pi rest i d <;> simp_all
-    | case3 hit => intro _; rfl
     | case4 hit => intro _; rfl
+    | case5 hit => intro _; rfl
   | close hd =>
     simp only [step] at h ⊢
     revert h
@@ -443,7 +567,7 @@ example : Inv (run .fixed State.empty demoHistory).1 := C09_inv _ _ inv_empty _
 /-- retractall(p(1)) after three asserts: the clause p(_) unifies too, p(2) survives -/
 example : (retractall .fixed 10 (run .fixed { State.empty with nextVar := 100 }
       [.assertz (Term.a1 "p" (.int 1)), .assertz (Term.a1 "p" (.var 7)), .assertz (Term.a1 "p" (.int 2))]).1
-    (Term.a1 "p" (.int 1))).1.procs.get ⟨"p", 1⟩ = some ⟨true, [⟨2, Term.a1 "p" (.int 2)⟩]⟩ := by
+    (Term.a1 "p" (.int 1))).1.procs.get ⟨"p", 1⟩ = some ⟨true, [⟨2, Term.a1 "p" (.int 2), .atom "true"⟩]⟩ := by
   decide +kernel
 
 end PrologVerif.C09
